@@ -347,6 +347,77 @@ def rtStep (case pyout : Sexp) : String :=
 
 def patchesNm : List (Nm × Nm) := patches.map fun p => (Nm.id p.1, Nm.id p.2)
 
+/-- one environment of family `patch`: `(env calls status result)` — `env` = the names `lookup_class`
+finds (un-patched) in that environment, `calls` = the names the real function handed to
+`lookup_class`, `status ∈ ok | value-error`, `result` = the name under which the returned object was
+found (`N` after an error). -/
+structure PatchObs where
+  env : List String
+  calls : List String
+  status : String
+  result : Option String
+
+def patchObs? : Sexp → Option PatchObs
+  | .list [env, calls, .atom st, res] => do
+    let r : Option String := match res with | .atom "N" => none | .atom a => some a | _ => none
+    some ⟨← atoms? env, ← atoms? calls, st, r⟩
+  | _ => none
+
+def lookupSexp (calls : List Nm) : Lookup Nm → List Sexp
+  | .found n => [.list (calls.map fun c => Sexp.atom c.str), .atom "ok", .atom n.str]
+  | .error _ => [.list (calls.map fun c => Sexp.atom c.str), .atom "value-error", .atom "N"]
+
+/-- family `patch`: the real `lookup_class_with_patches` in two environments (this machine's, and one
+where the external packages the table points to are importable) against `lookupWithPatches`.
+Spec on what python did, per environment: the outcome is `finish` of the chase (target if importable,
+else the original if importable, else the error of the target); a redirection that ends inside the
+package succeeds; and **a record written by a live class loads as that class** (no capture) — false
+for the F12 keys in the second environment (known finding), and false in the first one on a tree
+without `fix: patch fallback to live class` (finding F12b, fixed). -/
+def patchStep (name : String) (pyout : Sexp) : String :=
+  let start := Nm.ofString name
+  let isKey := (plookup patchesNm start).isSome
+  match chase patchesNm patchesNm.length start with
+  | none => driverResult (.atom "no-fixpoint") false false true "no-fixpoint"
+  | some r =>
+    let rs := r.str
+    let captured := match start with
+      | .id i => isKey && isLiveWritten liveClasses i
+      | .raw _ => false
+    let listed := knownCaptured.contains name
+    match pyout with
+    | .list [pa, pb] =>
+      match patchObs? pa, patchObs? pb with
+      | some oa, some ob =>
+        let model (o : PatchObs) : Lookup Nm := finish (fun n => o.env.contains n.str) start r
+        let modelCalls (o : PatchObs) : List Nm := finishCalls (fun n => o.env.contains n.str) start r
+        let same (l : Lookup Nm) (status : String) (result : Option String) : Bool := match l with
+          | .found n => status == "ok" && result == some n.str
+          | .error _ => status == "value-error" && result.isNone
+        -- Spec verdict for an outcome (of python, or of the model) in the environment `o.env`
+        let specOn (o : PatchObs) (status : String) (result : Option String) : Bool :=
+          same (model o) status result &&
+          (!(isKey && inPackage rs) || status == "ok") &&
+          (!captured || result == some name)
+        let modelStatus (o : PatchObs) : String × Option String := match model o with
+          | .found n => ("ok", some n.str)
+          | .error _ => ("value-error", none)
+        -- the first environment must agree with what the translator saw (names inside the package)
+        let envOk := importable.all fun e => oa.env.contains (nameOfId e.1) == e.2
+        let ok := specOn oa oa.status oa.result && specOn ob ob.status ob.result && envOk
+        let implok := specOn oa (modelStatus oa).1 (modelStatus oa).2 && specOn ob (modelStatus ob).1 (modelStatus ob).2
+        let impl : Sexp := .list [.list (.list (oa.env.map Sexp.atom) :: lookupSexp (modelCalls oa) (model oa)),
+                                  .list (.list (ob.env.map Sexp.atom) :: lookupSexp (modelCalls ob) (model ob))]
+        let loadsHere := oa.result == some name || oa.env.contains rs
+        let br := if captured then
+            (if !loadsHere then "captured-unloadable" else if listed then "captured-listed" else "captured-unlisted")
+          else if !isKey then "not-a-key"
+          else if inPackage rs then "key-to-package"
+          else if ob.env.contains rs && !oa.env.contains rs then "key-to-external-stubbed" else "key-to-external"
+        driverResult impl ok implok (!captured) br
+      | _, _ => driverResult (.atom "two-observations") false true true "malformed"
+    | _ => driverResult (.atom "two-observations") false true true "malformed"
+
 def step (line : String) : String :=
   match Sexp.parse line with
   | some (.list [.atom "vdict", .list ops, pyout]) =>
@@ -423,36 +494,7 @@ def step (line : String) : String :=
       let ok := Sexp.list impl == pyout
       driverResult (.list impl) ok true true (if multi then "multi-version-type-written" else "single-version-only")
     | _ => driverResult (.atom "rows") false true true "malformed"
-  | some (.list [.atom "patch", .atom name, pyout]) =>
-    -- python: (finalName status)   status ∈ ok | value-error
-    let start := Nm.ofString name
-    let isKey := (plookup patchesNm start).isSome
-    match chase patchesNm patchesNm.length start with
-    | none => driverResult (.atom "no-fixpoint") false false true "no-fixpoint"
-    | some r =>
-      let rs := r.str
-      let pyName : Option String := match pyout with | .list [.atom n, _] => some n | _ => none
-      let pyStatus : Option String := match pyout with | .list [_, .atom s] => some s | _ => none
-      let known : Option Bool := match r with
-        | .id i => blookup importable i
-        | .raw _ => none
-      -- importability of names outside the tables / outside the package depends on the environment:
-      -- the model echoes what python observed there
-      let status : String := match known with
-        | some true => "ok"
-        | some false => "value-error"
-        | none => pyStatus.getD "ok"
-      let captured := match start with
-        | .id i => isKey && isLiveWritten liveClasses i
-        | .raw _ => false
-      let listed := knownCaptured.contains name
-      let specOn (n : Option String) (s : Option String) : Bool :=
-        n == some rs && (!(isKey && inPackage rs) || s == some "ok") && !captured
-      let br := if captured then (if listed then "captured-listed" else "captured-unlisted")
-        else if !isKey then "not-a-key"
-        else if inPackage rs then "key-to-package" else "key-to-external"
-      driverResult (.list [.atom rs, .atom status]) (specOn pyName pyStatus)
-        (specOn (some rs) (some status)) (!captured) br
+  | some (.list [.atom "patch", .atom name, pyout]) => patchStep name pyout
   | some (.list [.atom "rt", case, pyout]) => rtStep case pyout
   | some (.list [.atom "rt1", .list [.atom kind, _], pyout]) =>
     -- python sends (canonical form before, canonical form after); Spec: they are equal
